@@ -425,7 +425,7 @@ def judge_design(c, b, drv):
                 # attribute of the nested view that was rendered: the client drops it while decoding and then misses it
                 lost = re.findall(r'"(\w+)" is missing from result', msg)
                 paths = [p for p in flat_keys(canon(expected)) if p.rsplit("/", 1)[-1] in lost]
-                if lost and paths and all(p.count("/") > 1 and outside_nested_default(rts, T, p) for p in paths):
+                if lost and any(p.count("/") > 1 and outside_nested_default(rts, T, p) for p in paths):
                     sig = "c08/client-drops-nested-attrs-outside-nested-default-view/required-attribute"
             c.fail(sig, "%s view %r: the client refused the response: %s" % (m["name"], view, msg[:300]),
                    input=inp, design=b.design)
